@@ -202,18 +202,17 @@ func (mv mapValue) IndexValue(iv Value) Value {
 func (mv mapValue) PropertyValue(iv Value) Value {
 	mr := reflect.ValueOf(mv.Interface())
 	ir := reflect.ValueOf(iv.Interface())
-	if !ir.IsValid() {
-		return nilValue
+	kt := mr.Type().Key()
+	if ir.IsValid() && ir.Type().ConvertibleTo(kt) && ir.Type().Comparable() {
+		er := mr.MapIndex(ir.Convert(kt))
+		if er.IsValid() {
+			return ValueOf(er.Interface())
+		}
 	}
-	er := mr.MapIndex(ir)
-	switch {
-	case er.IsValid():
-		return ValueOf(er.Interface())
-	case iv.Interface() == sizeKey:
+	if iv.Interface() == sizeKey {
 		return ValueOf(mr.Len())
-	default:
-		return nilValue
 	}
+	return nilValue
 }
 
 func (sv stringValue) Contains(substr Value) bool {
